@@ -194,7 +194,7 @@ IsChange(h, m) ==
     [] m.t = "dassign" -> ~D!DictEq(h.d[m.x], Mutate(h, m).d[m.x])
     [] m.t = "d" -> ~D!DictEq(h.d[m.x], MutD(h, m).post)
     [] m.t = "value" -> TRUE
-    [] m.t = "sassign" -> h.s[m.x] # SeqSet(m.xs)
+    [] m.t = "sassign" -> TRUE                                    \* identity mode: another set object, equal or not, is a change
     [] m.t = "s" -> MutS(h, m).post # h.s[m.x]
     [] m.t = "dlassign" -> ~DLEq(h.dl[m.x], m.ps)
     [] m.t = "dl" -> ~DLEq(h.dl[m.x], Mutate(h, m).dl[m.x])
